@@ -115,3 +115,304 @@ Lemma examples_admissible :
 Proof.
   split; [|split]; (split; [adm|]); eexists _, _; (split; [runs|]); split; reflexivity.
 Qed.
+
+(* ------------------------------------------------------------------ every cycle of an admissible history starts with the initial delay *)
+From Muduo Require Import C12_Inv.
+
+Definition c500 (e : event) : Prop := forall d, e = EvCycle d -> d = 500.
+Definition evall (m : M) : Prop := match m with Some (_, ev) => Forall c500 ev | None => True end.
+Lemma evall_bind m f : evall m -> (forall s, evall (f s)) -> evall (bind m f).
+Proof.
+  unfold evall, bind. destruct m as [[s e]|]; auto. intros H F. specialize (F s). destruct (f s) as [[s' e']|]; auto.
+  apply Forall_app. auto.
+Qed.
+Lemma evall_ret s : evall (ret s).
+Proof. constructor. Qed.
+Ltac c5 := repeat (constructor; [intros ? ?; try discriminate|]); try constructor.
+Lemma evall_some s ev : Forall c500 ev -> evall (Some (s, ev)).
+Proof. auto. Qed.
+
+Lemma do_close_ev s i : evall (do_close s i).
+Proof. unfold do_close. cbn. c5. Qed.
+Lemma retry_ev s i : evall (retry s i).
+Proof. unfold retry. apply evall_bind; [apply do_close_ev|]. intros s1. cbn. destruct (k_connect s1); cbn; c5. Qed.
+Lemma connecting_ev s i : evall (connecting s i).
+Proof. unfold connecting. cbn. destruct (k_chan s); cbn; auto; c5. Qed.
+Lemma connect_ev s : evall (connect_ s).
+Proof.
+  unfold connect_. cbn [kq set_socks].
+  destruct (kq s) as [|e r]; (apply evall_bind; [cbn; c5|]); intros s1;
+    destruct (classify _); auto using connecting_ev, retry_ev, do_close_ev, evall_ret.
+Qed.
+Lemma startInLoop_ev s : evall (startInLoop s).
+Proof. unfold startInLoop. destruct (negb _); cbn; auto. destruct (k_connect s); [apply connect_ev|apply evall_ret]. Qed.
+Lemma restart_ev s : evall (restart s).
+Proof.
+  unfold restart. apply evall_bind; [|intros; apply startInLoop_ev]. cbn. constructor; [intros ? ?; discriminate|].
+  constructor; [|constructor]. intros d [= <-]. exact G_init_delay.
+Qed.
+Lemma newConnection_ev s i : evall (newConnection s i).
+Proof. unfold newConnection. destruct (negb (alive s)); cbn; auto; c5. Qed.
+Lemma removeConnection_ev s c : evall (removeConnection s c).
+Proof.
+  unfold removeConnection. destruct (negb (alive s)); cbn; auto. destruct (connection s); cbn; auto. destruct (negb _); cbn; auto.
+  destruct (_ && _); [apply restart_ev|apply evall_ret].
+Qed.
+Lemma handleClose_ev s c : evall (handleClose s c).
+Proof.
+  unfold handleClose. destruct (nth_error (conns s) c) as [o|]; cbn [evall]; auto.
+  apply evall_bind; [cbn; c5|]. intros s1. destruct (ccb o); [apply removeConnection_ev|apply evall_ret].
+Qed.
+Lemma handleWrite_ev s e b : evall (handleWrite s e b).
+Proof.
+  unfold handleWrite. destruct (kstate_eqb (k_state s) KConnecting).
+  - destruct (removeAndResetChannel s) as [[s1 i]|]; cbn [evall]; auto.
+    destruct (negb _); [apply retry_ev|]. destruct b; [apply retry_ev|]. cbn. destruct (k_connect s1); [apply newConnection_ev|apply do_close_ev].
+  - destruct (kstate_eqb _ _); cbn; auto; constructor.
+Qed.
+Lemma handleError_ev s : evall (handleError s).
+Proof.
+  unfold handleError. destruct (kstate_eqb _ _); [|apply evall_ret].
+  destruct (removeAndResetChannel s) as [[s1 i]|]; cbn [evall]; auto. apply retry_ev.
+Qed.
+Lemma stopInLoop_ev s : evall (stopInLoop s).
+Proof.
+  unfold stopInLoop. destruct (kstate_eqb _ _); [|apply evall_ret].
+  destruct (removeAndResetChannel _) as [[s1 i]|]; cbn [evall]; auto. apply retry_ev.
+Qed.
+Lemma conn_shutdown_ev s c b : evall (conn_shutdown s c b).
+Proof.
+  unfold conn_shutdown. destruct (nth_error (conns s) c) as [o|]; cbn [evall]; auto.
+  destruct (cst o); try apply evall_ret. destruct b; cbn; c5.
+Qed.
+Lemma gc_from_ev n : forall c s, evall (gc_from n c s).
+Proof.
+  induction n as [|n IH]; intros c s; cbn [gc_from]; [apply evall_ret|].
+  destruct (nth_error (conns s) c) as [o|]; [|apply evall_ret]. destruct (_ && _); [|apply IH].
+  destruct (cst o); cbn [evall]; auto. destruct (creg o); cbn [evall]; auto.
+  apply evall_bind; [cbn; c5|]. intros; apply IH.
+Qed.
+Lemma finish_ev m : evall m -> evall (finish m).
+Proof.
+  intros H. unfold finish. apply evall_bind; [apply evall_bind; auto; intros; apply gc_from_ev|].
+  intros s. unfold settle. destruct (_ && _ && _ && _); [|apply evall_ret]. destruct (k_chan s); cbn; auto; constructor.
+Qed.
+Lemma fire_all_ev l : forall s, evall (fire_all l s).
+Proof.
+  induction l as [|t r IH]; intros s; cbn [fire_all]; [apply evall_ret|].
+  apply evall_bind; [|intros; apply IH]. unfold fire. destruct (snd t); [apply startInLoop_ev|apply evall_ret].
+Qed.
+Lemma destroy_rest_ev s snap b : evall (destroy_rest s snap b).
+Proof. unfold destroy_rest. destruct snap as [[c|] u]; destruct b; cbn; c5. Qed.
+
+(* the one place that depends on the invariant: startInLoop queued by a foreign connect() *)
+Lemma run_functor_ev s f r : Inv s -> pending s = f :: r -> evall (run_functor (set_pending s r) f).
+Proof.
+  intros (K & _) Hp. destruct f; cbn [run_functor].
+  - destruct (k_dead _); cbn [evall]; auto. apply evall_bind; [|intros; apply startInLoop_ev].
+    cbn. constructor; [|constructor]. intros d [= <-].
+    destruct K as [_ _ _ _ _ _ _ Kxc _ _]. destruct Kxc as [_ Dl]; [right; rewrite Hp, nstart_cons; cbn; lia|].
+    rewrite Dl. exact G_init_delay.
+  - destruct (k_dead _); cbn [evall]; auto. apply stopInLoop_ev.
+  - destruct (k_dead _); cbn [evall]; auto. constructor.
+  - destruct (nth_error _ c) as [o|]; cbn [evall]; auto. destruct (c_live _); cbn; c5.
+  - destruct (nth_error _ c) as [o|]; cbn [evall]; auto. destruct (c_live _); [apply handleClose_ev|apply evall_ret].
+  - apply evall_ret.
+  - destruct (nth_error _ c) as [o|]; cbn [evall]; auto. destruct (calive o); cbn; auto; c5.
+  - cbn. c5.
+Qed.
+Lemma run_one_ev s : Inv s -> evall (run_one s).
+Proof.
+  intros I. unfold run_one. destruct (pending s) as [|f r] eqn:Hp; [apply evall_ret|]. apply finish_ev. apply run_functor_ev; auto.
+Qed.
+Lemma run_n_ev n : forall s, Inv s -> evall (run_n n s).
+Proof.
+  induction n as [|n IH]; intros s I; cbn [run_n]; [apply evall_ret|].
+  pose proof (run_one_I s I) as W. pose proof (run_one_ev s I) as E.
+  unfold evall, bind in *. destruct (run_one s) as [[s1 e1]|]; auto. cbn in W. specialize (IH s1 W).
+  destruct (run_n n s1) as [[s2 e2]|]; auto. apply Forall_app. auto.
+Qed.
+
+Lemma step_core_ev s o : Inv s -> contract s o = true -> match step_core s o with Some m => evall m | None => True end.
+Proof.
+  intros I Hc. destruct o; cbn [step_core].
+  - destruct (negb _); auto. apply evall_bind; [|intros; apply startInLoop_ev].
+    cbn. constructor; [intros ? ?; discriminate|]. constructor; [|constructor]. intros d [= <-].
+    cbn in Hc. unfold idle in Hc. apply andb_prop in Hc. destruct Hc as [_ Hc]. apply Z.eqb_eq in Hc. rewrite Hc. exact G_init_delay.
+  - destruct (negb _); auto. destruct (connection _); [apply conn_shutdown_ev|apply evall_ret].
+  - destruct (negb _); auto. cbn. c5.
+  - destruct (negb _); auto. apply evall_ret.
+  - destruct (_ || _ || _ || _); auto. apply destroy_rest_ev.
+  - destruct (_ || _); auto. cbn. c5.
+  - destruct (_ || _); auto. apply evall_ret.
+  - destruct (_ || _); auto. cbn. c5.
+  - destruct (_ || _); auto. apply evall_ret.
+  - destruct (_ || _); auto. apply evall_ret.
+  - destruct (_ || _); auto. destruct (connection _); [apply conn_shutdown_ev|apply evall_ret].
+  - discriminate.
+  - discriminate.
+  - apply evall_ret.
+  - destruct (k_chan s) as [[i [|]]|]; auto. destruct (k_dead s); auto. apply handleWrite_ev.
+  - destruct (k_chan s) as [[i [|]]|]; auto. destruct (k_dead s); auto. apply handleError_ev.
+  - destruct (min_due _); auto. destruct (has_dup _); auto. apply fire_all_ev.
+  - apply evall_bind; [apply run_n_ev; auto|]. intros; apply evall_ret.
+  - destruct (pending s); auto. apply run_one_ev; auto.
+  - destruct (find_down _ _ _); auto. apply handleClose_ev.
+  - destruct (negb _); auto. destruct (connection s); auto. destruct (find_user _ _); auto. apply evall_ret.
+  - destruct (find_user _ _); auto. destruct (nth_error _ _); auto. destruct (_ && _); auto. apply evall_ret.
+Qed.
+
+Lemma step_ev s o s' ev : Inv s -> contract s o = true -> step s o = Ok s' ev -> Forall c500 ev.
+Proof.
+  intros I Hc. unfold step. pose proof (step_core_ev s o I Hc) as W.
+  destruct (step_core s o) as [m|]; [|discriminate]. apply finish_ev in W.
+  destruct (finish m) as [[s1 e1]|]; [|discriminate]. intros [= _ <-]. exact W.
+Qed.
+
+(* ------------------------------------------------------------------ the theorems about admissible histories *)
+Lemma admissible_run l : forall s, Inv s -> admissible s l ->
+  exists s' ev, run s l = Some (s', ev) /\ Inv s' /\ Forall c500 ev.
+Proof.
+  induction l as [|o r IH]; intros s I A; cbn [run].
+  - exists s, []. auto.
+  - unfold admissible in A. cbn [admissible_with] in A.
+    destruct (step s o) as [s1 e1| |] eqn:E.
+    + destruct A as [Hc A]. pose proof (step_I s o I Hc) as W. rewrite E in W.
+      pose proof (step_ev _ _ _ _ I Hc E) as F1.
+      destruct (IH s1 W A) as (s' & ev & R & I' & F2). exists s', (e1 ++ ev). rewrite R. split; [reflexivity|split; [exact I'|apply Forall_app; auto]].
+    + apply IH; auto.
+    + pose proof (step_I s o I A) as W. rewrite E in W. destruct W.
+Qed.
+
+(* no step of an admissible history faults: no assert fails, nothing is called through a dangling pointer *)
+Theorem no_fault : forall l, admissible init l -> run init l <> None.
+Proof. intros l A. destruct (admissible_run l init Inv_init A) as (s & ev & R & _). congruence. Qed.
+
+Theorem backoff_admissible : forall l s ev, admissible init l -> run init l = Some (s, ev) -> backoff_ok 0 ev.
+Proof.
+  intros l s ev A R. destruct (admissible_run l init Inv_init A) as (s' & ev' & R' & _ & F). rewrite R in R'. injection R' as <- <-.
+  apply (arms_closed_form ev 0%nat).
+  - intros d Hd. rewrite Forall_forall in F. apply (F _ Hd d eq_refl).
+  - apply (trace_backoff_shape _ _ _ R).
+Qed.
+
+(* ------------------------------------------------------------------ states reached by admissible histories *)
+Definition reachable (s : st) : Prop := exists l ev, admissible init l /\ run init l = Some (s, ev).
+Lemma reachable_Inv s : reachable s -> Inv s.
+Proof.
+  intros (l & ev & A & R). destruct (admissible_run l init Inv_init A) as (s' & ev' & R' & I & _). rewrite R in R'. injection R' as <- <-. exact I.
+Qed.
+
+(* one more admissible op from a reachable state never faults *)
+Theorem step_safe : forall s o, reachable s -> contract s o = true -> step s o <> Fault.
+Proof.
+  intros s o Hr Hc. pose proof (step_I s o (reachable_Inv _ Hr) Hc) as W. destruct (step s o); congruence.
+Qed.
+
+(* destruction on the loop thread: nothing is left behind once the queue and the timers have drained
+   and the user holds no connection *)
+Theorem destroyed_quiescent : forall s, reachable s ->
+  alive s = false -> pending s = [] -> timers s = [] -> (forall c o, nth_error (conns s) c = Some o -> cuser o = 0%nat) ->
+  k_dead s = true /\ k_chan s = None /\ connection s = None /\
+  (forall c o, nth_error (conns s) c = Some o -> calive o = false /\ nth_error (socks s) (csock o) = Some (HandedClosed 1)) /\
+  (forall i x, nth_error (socks s) i = Some x -> x <> Open).
+Proof.
+  intros s Hr A P T U. pose proof Hr as (l & ev & Ad & R). destruct (reachable_Inv _ Hr) as (K & Kd & St & C & Cr & X).
+  assert (Dd : k_dead s = true) by (apply St; auto).
+  destruct K as [_ _ _ _ _ _ Kkd _ _ _]. destruct (Kkd Dd) as (_ & _ & Hc & _).
+  destruct C as [D C]. destruct C as [_ Cde _ _ _ _ _ _ _ _ _ _].
+  assert (Dead : forall c o, nth_error (conns s) c = Some o -> calive o = false).
+  { intros c o Ho. destruct (calive o) eqn:Al; auto. pose proof (Cr _ _ Ho Al) as Z. unfold refsC in Z.
+    rewrite (Cde A), Ho, (U _ _ Ho), P in Z. cbn in Z. lia. }
+  split; [exact Dd|split; [exact Hc|split; [exact (Cde A)|split]]].
+  - intros c o H. split; [apply (Dead _ _ H)|]. destruct (conn_sockets _ _ _ R _ _ H) as [Hs _]. rewrite (Dead _ _ H) in Hs. exact Hs.
+  - intros i x H ->. destruct (hygiene_all_histories _ _ _ R _ _ H) as [[_ E]|[E|[E|E]]]; congruence.
+Qed.
+
+(* ------------------------------------------------------------------ what `finish` adds to a step: only ~TcpConnection closing its descriptor *)
+Definition is_connclose (e : event) : Prop := exists i, e = EvConnClose i.
+Lemma gc_from_events n : forall c s s' ev, gc_from n c s = Some (s', ev) -> Forall is_connclose ev.
+Proof.
+  induction n as [|n IH]; intros c s s' ev; cbn [gc_from].
+  - intros [= _ <-]. constructor.
+  - destruct (nth_error (conns s) c) as [o|]; [|intros [= _ <-]; constructor].
+    destruct (_ && _); [|apply IH]. destruct (cst o); try discriminate. destruct (creg o); [discriminate|].
+    unfold bind. destruct (gc_from n (S c) _) as [[s2 e2]|] eqn:G; [|discriminate]. intros [= _ <-]. cbn.
+    constructor; [eexists; reflexivity|eapply IH; eauto].
+Qed.
+Lemma finish_events m s' ev' : finish m = Some (s', ev') ->
+  exists s1 ev1 g, m = Some (s1, ev1) /\ ev' = ev1 ++ g /\ Forall is_connclose g.
+Proof.
+  unfold finish, bind. destruct m as [[s1 ev1]|]; [|discriminate].
+  unfold gc. destruct (gc_from _ _ s1) as [[s2 e2]|] eqn:G; [|discriminate].
+  unfold settle. destruct (_ && _ && _ && _).
+  - destruct (k_chan s2); [discriminate|]. cbn. intros [= _ <-]. exists s1, ev1, e2. rewrite app_nil_r. repeat split; auto. eapply gc_from_events; eauto.
+  - cbn. intros [= _ <-]. exists s1, ev1, e2. rewrite app_nil_r. repeat split; auto. eapply gc_from_events; eauto.
+Qed.
+Lemma step_events s o s' ev : step s o = Ok s' ev ->
+  exists s1 ev1 g, step_core s o = Some (Some (s1, ev1)) /\ ev = ev1 ++ g /\ Forall is_connclose g.
+Proof.
+  unfold step. destruct (step_core s o) as [m|]; [|discriminate]. destruct (finish m) as [[s2 e2]|] eqn:F; [|discriminate].
+  intros [= _ <-]. destruct (finish_events _ _ _ F) as (s1 & ev1 & g & -> & E & H). exists s1, ev1, g. auto.
+Qed.
+
+(* ------------------------------------------------------------------ the reconnect decision *)
+Lemma bind_some_events s0 e0 f s' ev : bind (Some (s0, e0)) f = Some (s', ev) -> exists rest, ev = e0 ++ rest.
+Proof. unfold bind. destruct (f s0) as [[s2 e2]|]; [|discriminate]. intros [= _ <-]. eauto. Qed.
+Lemma bind_some_inv s0 e0 f s' ev : bind (Some (s0, e0)) f = Some (s', ev) -> exists rest, f s0 = Some (s', rest) /\ ev = e0 ++ rest.
+Proof. unfold bind. destruct (f s0) as [[s2 e2]|]; [|discriminate]. intros [= <- <-]. eauto. Qed.
+Lemma connect_events s s' ev : connect_ s = Some (s', ev) -> exists i e rest, ev = EvAttempt i e :: rest.
+Proof.
+  unfold connect_. cbn [kq set_socks]. destruct (kq s) as [|e r]; intros H; apply bind_some_events in H; destruct H as (rest & ->); cbn; eauto.
+Qed.
+Lemma restart_events s s' ev : restart s = Some (s', ev) -> exists i e rest, ev = EvWant :: EvCycle 500 :: EvAttempt i e :: rest.
+Proof.
+  unfold restart, bind. cbn [k_delay set_k_connect set_k_delay]. unfold startInLoop. cbn [k_state set_k_connect set_k_delay set_k_state kstate_eqb negb k_connect].
+  match goal with |- context [connect_ ?X] => destruct (connect_ X) as [[s2 e2]|] eqn:E end; [|discriminate].
+  intros [= _ <-]. destruct (connect_events _ _ _ E) as (i & e & rest & ->). rewrite G_init_delay. cbn. eauto.
+Qed.
+
+Theorem retry_policy : forall s s' ev c o, reachable s -> contract s Down = true ->
+  find_down (conns s) 0 None = Some c -> nth_error (conns s) c = Some o -> ccb o = CbClient ->
+  step s Down = Ok s' ev ->
+  (c_retry s && c_connect s = true -> exists i e rest, ev = EvDown c :: EvWant :: EvCycle 500 :: EvAttempt i e :: rest) /\
+  (c_retry s && c_connect s = false -> exists g, ev = EvDown c :: g /\ Forall is_connclose g).
+Proof.
+  intros s s' ev c o Hr Hc Hf Ho Hb Hst.
+  destruct (reachable_Inv _ Hr) as (K & Kd & St & [D C] & Cr & X).
+  destruct (find_down_spec _ _ _ _ Hf) as [E|(o' & Ho' & _ & Ha & Hg & Hl)]; [discriminate|]. rewrite Nat.sub_0_r, Ho in Ho'. injection Ho' as <-.
+  destruct C as [_ _ _ Ccb _ _ _ _ _ _ _ _]. destruct (Ccb _ _ Ho Ha Hl Hb) as [Al Cn].
+  destruct (step_events _ _ _ _ Hst) as (s1 & ev1 & g & Hcore & -> & Hg').
+  cbn [step_core] in Hcore. rewrite Hf in Hcore. injection Hcore as Hcore.
+  unfold handleClose in Hcore. rewrite Ho, Hb in Hcore. apply bind_some_inv in Hcore. destruct Hcore as (rest & Hcore & ->).
+  unfold removeConnection in Hcore. cbn [alive setc set_conns connection] in Hcore. rewrite Al, Cn, Nat.eqb_refl in Hcore. cbn [negb] in Hcore.
+  cbn [c_retry c_connect enq set_pending set_connection setc set_conns] in Hcore.
+  destruct (c_retry s && c_connect s); split; try discriminate; intros _.
+  - destruct (restart_events _ _ _ Hcore) as (i & e & rest' & ->). cbn. eauto.
+  - cbn in Hcore. injection Hcore as _ <-. cbn. eauto.
+Qed.
+
+(* ------------------------------------------------------------------ disconnect() = shutdown() of the current connection, nothing else *)
+Theorem disconnect_graceful : forall s c o, user_api_ok s = true -> connection s = Some c ->
+  nth_error (conns s) c = Some o -> cst o = CConnected ->
+  exists s1, step_core s Disconnect = Some (Some (s1, [EvFin c])) /\
+    nth_error (conns s1) c = Some (c_set_fin true (c_set_st CDisconnecting o)) /\
+    connection s1 = Some c /\ c_connect s1 = false /\ pending s1 = pending s /\ timers s1 = timers s /\
+    k_state s1 = k_state s /\ k_chan s1 = k_chan s /\ k_connect s1 = k_connect s /\ socks s1 = socks s /\
+    (forall c', c' <> c -> nth_error (conns s1) c' = nth_error (conns s) c').
+Proof.
+  intros s c o U Hcn Ho Hs. cbn [step_core]. rewrite U. cbn [negb connection set_c_connect]. rewrite Hcn.
+  unfold conn_shutdown. cbn [conns set_c_connect]. rewrite Ho, Hs. eexists. split; [reflexivity|]. cbn.
+  rewrite nth_error_upd_same, nth_error_upd_same, Ho. cbn. repeat split; auto.
+  intros c' Ne. rewrite !nth_error_upd_other; auto.
+Qed.
+
+(* an attempt that completes after stop() is closed, not handed over (first half of stop_silences is trace_silent) *)
+Theorem completes_after_stop_is_closed : forall s i, k_chan s = Some (i, true) -> k_state s = KConnecting ->
+  k_dead s = false -> k_connect s = false ->
+  exists s1, step_core s (EvWritable 0 false) = Some (Some (s1, [EvClose i])) /\
+    nth_error (socks s1) i = option_map close_state (nth_error (socks s) i) /\ connection s1 = connection s /\ conns s1 = conns s.
+Proof.
+  intros s i Hc Hs Hd Hk. cbn [step_core]. rewrite Hc, Hd. unfold handleWrite, removeAndResetChannel. rewrite Hs, Hc. cbn. rewrite Hk. cbn.
+  eexists. split; [reflexivity|]. cbn. rewrite nth_error_upd_same. auto.
+Qed.
